@@ -10,8 +10,8 @@ from props import c01, c03
 ID = 'C06'
 LEAN_MODULES = ['PybtexModel.Props.C06']
 THEOREMS = {
-    'C06_aux_equiv': 'driving the engine through an .aux file produces byte for byte (bbl, reports, printed output) what the explicit call with the style, data files and citations of the .aux file produces; a fatal .aux error / unreadable file is the error of the run',
-    'C06_overrides': 'an explicitly requested style replaces the \\bibstyle of the .aux file; with a bib_format reader its database is what READ uses and the .bib files are neither opened nor looked at',
+    'C06_aux_equiv': "[model wiring] the model DEFINES makeBibliography as Aux.parse followed by formatFromFiles on the .aux file's style, data names and citations: 'aux run = explicit call byte for byte' holds by construction (proved content: a successful parse has style and data); that the CODE does so is carried by the correspondence check",
+    'C06_overrides': "[model wiring] part 1 (style= / bib_format= replace \\bibstyle / suffix+reader) unfolds makeBibliography - carried by the correspondence check over all override combinations; parts 2-4: with a reader database the model's READ stores it and never looks at .bib names or texts - by construction: the reader's own file access is NOT modelled",
     'C06_frame': 'frame property of the interpreter: if two databases agree on the view (type, own and inherited fields, crossref value) of the keys K, then from states that differ in the database only every built-in, token, function body, while$ loop, ITERATE/REVERSE over K, every command except READ and every READ-free program yields results that differ in the database only (or the same error) - for every amount of fuel',
     'C06_frame_closure': 'the view of a key is determined by its crossref closure: databases with the same entries on a crossref-closed key set agree on it - uncited, unreferenced entries and the order of entries are irrelevant',
     'C06_frame_read': 'reduction of the READ hypothesis: equal preamble, reader reports and citation resolution (C05) plus agreement on the resolved citations make the two READ steps leave states that differ in the database only',
@@ -19,28 +19,29 @@ THEOREMS = {
     'C06_frame_reports': 'reports made before (e.g. by READ) do not matter: from states differing in the database and in the reports made so far a READ-free program gives the same error or final states differing only in the database and that prefix - same output lines, printed text and appended reports',
     'C06_frame_run_reports': 'two runs of a style pre;READ;post whose READ steps leave states differing in the database and in their reports, with databases agreeing on the resolved citations: same error, or same .bbl, printed output and reports after READ',
     'C06_frame_uncited_alt': 'adding or removing an uncited, not-yet-referenced entry in the entry list a bib_format reader delivers does not change the run at all',
-    'C06_one_item_per_citation': 'for the schema READ; [SORT;] ITERATE {f} (and REVERSE) with f emitting exactly one item per call: one item per resolved citation, in citation order / reverse order / sortByKey order = a permutation ascending by sort.key$ in which equal keys keep citation order (stable)',
+    'C06_one_item_per_citation': 'for the schema READ; [SORT;] ITERATE {f} (and REVERSE), HYPOTHESIS: f, bound to the name in the command, appends exactly item k per call under an invariant Inv it maintains and the start state satisfies: one item per resolved citation, in citation order / reverse order / sortByKey order = a permutation ascending by sort.key$ in which equal keys keep citation order (stable)',
     'C06_sort_order_total': "the sort compares keys with a strict total order (Python's < on str): ties are exactly equal keys",
     'C06_aux_equiv_nonvacuous': 'non-vacuity: a three-line .aux, a two-entry .bib and a tiny style evaluate to the same .bbl through both entry points; an unreadable .aux is the error of the run',
-    'C06_overrides_nonvacuous': 'non-vacuity: a sorting style overrides the unsorted \\bibstyle; a reader database is used although no file with the reader suffix exists',
+    'C06_overrides_nonvacuous': 'non-vacuity: a sorting style overrides the unsorted \\bibstyle; the model uses a reader database without any file with the reader suffix (a run the real code cannot perform: its reader would raise on the missing file - reader file access is not modelled); same suffix without a reader database: cannot open',
     'C06_frame_closure_nonvacuous': 'non-vacuity: two example databases (entries in different order) satisfy the closure hypotheses',
     'C06_frame_nonvacuous': 'non-vacuity: the example databases agree on the cited keys, differ as databases, and the state after READ is a good state',
     'C06_frame_read_nonvacuous': 'non-vacuity: the hypotheses of the READ reduction hold for the two example readers',
     'C06_frame_run_nonvacuous': 'non-vacuity: the hypotheses of the run theorem hold for the two example readers and the runs are equal with the expected .bbl',
     'C06_frame_run_reports_nonvacuous': 'non-vacuity: the example readers satisfy the hypotheses of the reports variants (good READ state, agreeing databases)',
     'C06_frame_uncited_alt_nonvacuous': 'non-vacuity: an uncited entry standing between two cited ones satisfies the side condition',
-    'C06_one_item_per_citation_nonvacuous': 'non-vacuity: f = {cite$ write$ newline$} satisfies the hypotheses for every state and key; the three tiny styles give citation, reverse and sort-key order; a concrete stable sort',
-    'C06_bib_format_selects': 'bib_format selects the suffix of the data file names AND the reader READ uses, together (one plug-in object): make_bibliography with a reader is the explicit call on the \\bibdata names with that reader\'s suffix and that reader\'s database; without bib_format it is the BibTeX reader with suffix .bib',
+    'C06_one_item_per_citation_nonvacuous': 'non-vacuity of the hypotheses on f only (hf, hcit): f = {cite$ write$ newline$} satisfies them for every state with InvEx and every key (fuel 10); three tiny styles evaluated to citation / reverse / sort-key order; a concrete stable sort. The state hypotheses (hs, hv) are instantiated in C06_one_item_per_citation_instance',
+    'C06_one_item_per_citation_instance': 'instantiation of ALL hypotheses: the state after READ FUNCTION {f} {cite$ write$ newline$} on the example database satisfies InvEx and binds f (hs, hv), resolved citations a b; the theorem applied to it predicts the lines of ITERATE {f}, REVERSE {f}, SORT ITERATE {f}, and these commands do succeed from it with exactly those lines',
+    'C06_bib_format_selects': '[model wiring] definitional unfolding of makeBibliography: bib_format hands suffix and reader database over as ONE Format object, none = bibtexFormat (.bib, no database); conjuncts 2-4 are rfl; that the code selects suffix and reader together is carried by the correspondence check (bib_format cases with a decoy or absent .bib file)',
     'C06_bib_format_selects_nonvacuous': 'non-vacuity: a reader delivering only entry b is used although refs.bib holds both entries; the same suffix without a reader database finds no file',
-    'C06_entry_points': 'the entry points named in the quantifier are one function: format_from_files on files holding the texts = format_from_strings(texts); format_from_string(t) = format_from_strings([t]); format_from_file(n) = format_from_string(text of n) - same .bbl, reports, printed output or error',
+    'C06_entry_points': "[model wiring] formatFromString / formatFromFile are DEFINED as formatFromFiles on [.text t] / [.file n] (conjunct 2 is rfl); proved content: file sources whose files hold the texts read as the texts, hence format_from_files(names) = format_from_strings(texts); that the code's entry points agree is carried by the correspondence check",
     'C06_entry_points_nonvacuous': 'non-vacuity: the example .bib text through format_from_string, format_from_file and split into two strings',
-    'C06_files_opened_by_read': 'the model follows the order in which the code touches the outside world: nothing is opened before READ (a READ-free prefix of the script runs whatever the data files are: a style without READ never needs them, an error before READ is the error of the run), READ opens the sources (a missing file is the error of the run), a command without a command_ method is printed as Unknown command and skipped',
+    'C06_files_opened_by_read': "part 1 (real content): a READ-free prefix of known commands runs as in the file-less interpreter whatever the data sources are (a style without READ never needs them; an error before READ is the run's error); parts 2/3 [model wiring]: unfold stepF (READ opens the sources, missing file = cannotOpen; unknown command printed, skipped); the CODE's order of file access: correspondence check",
     'C06_files_opened_by_read_nonvacuous': 'non-vacuity: four miniature styles on a MISSING data file (no READ: output; raises before READ: that error; syntax error behind executed commands: surfaces after they ran, unless they raised first; with READ: cannot open) and an unknown command that is printed and skipped',
     'C06_frame_files': 'the frame theorem at the entry point: two format_from_files calls with the same style (pre; READ; post), citations and min_crossrefs on two file systems / source lists whose READ steps leave states differing in the database only, with databases agreeing on the resolved citations, return the same .bbl, reports, printed output or error',
     'C06_frame_files_nonvacuous': 'non-vacuity: the example style parses to ENTRY FUNCTION READ ITERATE, both example .bib files are read, the two calls give the same .bbl',
     'C06_order_general': 'the order clauses for the command skeleton of the shipped styles: every command other than READ and SORT (also ITERATE / REVERSE over any function) leaves the citation list and the database alone; mid; ITERATE {f} emits the items in citation order behind the output of mid; SORT; mid; ITERATE {f} emits them in sortByKey order of the citations paired with their sort.key$ at the time of the SORT (permutation, ascending, ties in the order before the SORT = citation order for the first SORT)',
     'C06_order_general_nonvacuous': 'non-vacuity: READ ITERATE {k} SORT STRINGS {x} ITERATE {k} REVERSE {k} ITERATE {f} has a mid without READ / SORT and gives the keys in sort-key order',
-    'C06_item_starts_with_bibitem': 'instantiation of one-item-per-citation for the output.bibitem ... fin.entry skeleton of unsrt.bst / plain.bst: an entry function beginning with output.bibitem (whose body begins newline$ "\\bibitem{" write$ cite$ write$ "}" write$ newline$) appends lines that start with the pending line and \\bibitem{k}, whatever the rest of the function does (the output only grows); ITERATE over it gives exactly one \\bibitem{k} block per resolved citation, in citation order',
+    'C06_item_starts_with_bibitem': 'for the output.bibitem ... skeleton of unsrt.bst / plain.bst (standard write$ / newline$ / cite$ bindings; output.bibitem begins newline$ "\\bibitem{" write$ cite$ write$ "}" write$ newline$): one call appends lines STARTING with the pending line and \\bibitem{k}; ITERATE under a kept invariant appends as many blocks as citations, in citation order, each BEGINNING with \\bibitem{k} - the rest of a block is unconstrained (not proved free of further \\bibitem)',
     'C06_item_starts_with_bibitem_nonvacuous': 'non-vacuity: a style with the standard output.bibitem and ITERATE {call.type$} produces \\bibitem{a} ... \\bibitem{b} ...',
     'C06_frame_reordered': "the database file is reordered: two readings that deliver the same entry under every key (in any order), with equal preamble and reader reports and no '*' cited, make READ resolve the same citations with the same reports and leave states differing in the database only, with agreeing databases - the READ hypothesis of C06_frame_run / C06_frame_files, hence equal runs",
     'C06_frame_reordered_nonvacuous': 'non-vacuity: the two example readers deliver the same entry under every key in different orders',
@@ -907,17 +908,22 @@ def gen_cases(tier, rng, info):
 
 LEVEL_TEXT = ('Machine-checked proofs (Lean 4) over an executable model of Engine.make_bibliography, BibTeXEngine.format_from_files / '
               '_file / _string(s), the loop of Interpreter.run (style parsed lazily, data files opened by READ, unknown commands skipped) and '
-              'the whole BST interpreter (every built-in, READ / ITERATE / REVERSE / SORT): (1) the .aux entry point equals the explicit call '
-              'byte for byte, an explicit style replaces \\bibstyle, bib_format selects suffix and reader together, the entry points are one '
-              'function; (2) frame theorem, by simultaneous induction on fuel over the six mutually recursive interpreter functions: '
+              'the whole BST interpreter (every built-in, READ / ITERATE / REVERSE / SORT): (1) entry points and overrides are MODEL WIRING, '
+              'not independent results: the model defines make_bibliography as the .aux reader followed by the explicit call with style= / '
+              'bib_format= substituted and format_from_string / _file as format_from_files on one source (C06_aux_equiv, _overrides, '
+              '_bib_format_selects, _entry_points unfold these definitions); that the CODE behaves so is established by the correspondence '
+              'check only; proved there: a successful .aux parse has style and data, file sources holding the texts read as the texts, a '
+              'READ-free prefix of the script never touches the data files; '
+              '(2) frame theorem, by simultaneous induction on fuel over the six mutually recursive interpreter functions: '
               'everything after READ depends on the database only through the view (type, own and inherited fields, crossref value) of the '
               'resolved citations, which is determined by their crossref closure - so two runs (also: two format_from_files calls) whose READ '
               'steps resolve the same citations on databases agreeing there produce the same .bbl, reports and printed output; inserting an '
               "uncited, unreferenced entry into a reader's entry list or exchanging two neighbours of it (parent-after-child proviso, no '*') "
               'changes nothing; databases holding the same entry under every key in any order give the same READ result; (3) order: every '
-              'command except READ and SORT keeps the citation list; mid; ITERATE {f} emits one item per resolved citation in citation order, '
+              'command except READ and SORT keeps the citation list; IF f appends exactly one item per call (a hypothesis about the style, under an '
+              'invariant it maintains) THEN mid; ITERATE {f} emits one item per resolved citation in citation order, '
               'SORT; mid; ITERATE {f} in stable sort.key$ order; an entry function beginning with the standard output.bibitem emits lines '
-              'starting with \\bibitem{k}.  Tied to the code by a byte-for-byte correspondence check of the model against the real engine on '
+              'starting with \\bibitem{k} (each block BEGINS with it; the rest of a block is unconstrained).  Tied to the code by a byte-for-byte correspondence check of the model against the real engine on '
               'the shipped styles (unsrt, plain, alpha; thorough: unsrt_mixed, IEEEtran, jurabib, apacite) and generated miniature styles '
               'through every entry point with all override combinations, plus metamorphic checks and a sorted-order clause (reference sort '
               'keys from the model) on the implementation.')
@@ -932,6 +938,9 @@ LEVEL_NOTE = ('Trusted: Lean kernel; axioms propext/Classical.choice/Quot.sound 
               'rest of an entry function is arbitrary code: only "the output grows" is proved about it; alpha.bst\'s \\bibitem[label]{k} '
               'variant: C06_item_starts_with_bibitem_alpha).  Whole-run theorems are stated for styles with a single READ (all styles in existence).  '
               "The sort-order oracle clause takes the sort keys from the model (the property gives no other definition of a style's keys); "
-              'REVERSE is visible to it only through generated styles whose sort keys are computed in a REVERSE pass.  Not modelled: the '
+              'REVERSE is visible to it only through generated styles whose sort keys are computed in a REVERSE pass.  Model wiring plus '
+              'correspondence check only (no independent proof): .aux run = explicit call, style / bib_format overrides, equality of the entry '
+              "points, lazy opening of the data files; the bib_format reader's own file access is not modelled (with a reader database the "
+              "model opens no source, whereas the code's reader raises on a missing file).  Not modelled: the "
               "in-place mutation of the caller's citation list by SORT before READ; encodings (the model maps text to text; the byte-level "
               'comparison of the two entry points under output_encoding / bib_encoding is implementation-only).')
